@@ -11,7 +11,11 @@ CONSTANTS Kinds          \* subset of {"sign", "extend"}
 
 (* reply attributes and their good value.  Numeric attributes are 64-bit on the wire: besides an ordinary wrong value the server may    *)
 (* send values that coincide with the good one in their low 8 / 16 / 32 bits ("wide": good value + 2^32; statuses as hex strings).   *)
-Status == {"0", "0x101", "0x100", "0x10000", "0x100000000", "0x8000000000000000", "0xffffffff00000000"}
+(* "absent": the status element is left out.  The KSI protocol makes it mandatory; libksi's response templates make it optional and the SDK  *)
+(* reads an absent status as zero -- a named deviation, modelled as what the code does: such a reply is as good as one with status zero,   *)
+(* and every OTHER condition (request id, times, shape, hash) must still hold for it                                                     *)
+Status == {"0", "absent", "0x101", "0x100", "0x10000", "0x100000000", "0x8000000000000000", "0xffffffff00000000"}
+StatusZero(a) == a.status \in {"0", "absent"}
 SignDom == [what |-> {"resp", "errpdu", "garbage", "close"}, mac |-> {"ok", "bad", "badlast", "missing", "otherkey", "otheralg"}, hdr |-> {"ok", "missing"},
             ver |-> {"v2", "v1"}, status |-> Status, id |-> {"same", "other", "stale", "wide"}, hash |-> {"same", "other"}, cons |-> {"ok", "broken"},
             body |-> {"full", "empty"}]        \* the response payload carries the chains / only id, status and error message
@@ -62,8 +66,8 @@ ServerReplies(a) ==
     /\ UNCHANGED <<req, result>>
 
 (* the client accepts exactly the authentic, status-zero, matching, consistent reply *)
-Good(r, a) == IF r.kind = "sign" THEN Diff(a, GoodSign) = {} /\ r.alg # "sha1"
-              ELSE /\ Diff(a, GoodExt) \subseteq ((IF ~r.oldcal /\ r.target \notin {"pubrec", "pubrecBad"} THEN {"rlinks"} ELSE {}) \cup (IF r.target = "head" THEN {"pubtime"} ELSE {}))
+Good(r, a) == IF r.kind = "sign" THEN Diff(a, GoodSign) \subseteq (IF StatusZero(a) THEN {"status"} ELSE {}) /\ r.alg # "sha1"
+              ELSE /\ Diff(a, GoodExt) \subseteq ((IF StatusZero(a) THEN {"status"} ELSE {}) \cup (IF ~r.oldcal /\ r.target \notin {"pubrec", "pubrecBad"} THEN {"rlinks"} ELSE {}) \cup (IF r.target = "head" THEN {"pubtime"} ELSE {}))
                    /\ r.target \notin {"earlier", "pubrecBad"}        \* the result must verify with the supplied record: its hash has to be the new chain's root
 Finish == /\ phase = "replied" /\ phase' = "done"
           /\ result' = IF Good(req, reply) THEN "success" ELSE "error"
@@ -80,7 +84,7 @@ Spec == Init /\ [][Next]_vars
 (* ---- C07 / C08 as invariants ---- *)
 SuccessOnlyIfValid ==
     result = "success" =>
-        /\ reply.what = "resp" /\ reply.mac = "ok" /\ reply.hdr = "ok" /\ reply.ver = "v2" /\ reply.status = "0" /\ reply.id = "same" /\ reply.body = "full"
+        /\ reply.what = "resp" /\ reply.mac = "ok" /\ reply.hdr = "ok" /\ reply.ver = "v2" /\ StatusZero(reply) /\ reply.id = "same" /\ reply.body = "full"
         /\ req.kind = "sign" => (reply.hash = "same" /\ reply.cons = "ok" /\ ~RefusedLocally(req) /\ req.alg # "sha1")
         /\ req.kind = "extend" => (reply.aggrtime = "same" /\ reply.shape = "ok" /\ reply.input = "same"
                                   /\ (req.target # "head" => reply.pubtime = "same") /\ (req.oldcal \/ req.target = "pubrec" => reply.rlinks = "agree")
